@@ -91,6 +91,31 @@ theorem Val.isStr_iff (s : String) (v : Val) : v.isStr s = true ↔ v = .str s :
 
 def Val.strKey? : Val → Option String | .str s => some s | _ => none
 
+/-- Python keywords (`keyword.kwlist`) -/
+def pyKeywords : List String :=
+  ["False", "None", "True", "and", "as", "assert", "async", "await", "break", "class", "continue", "def", "del", "elif", "else",
+   "except", "finally", "for", "from", "global", "if", "import", "in", "is", "lambda", "nonlocal", "not", "or", "pass", "raise",
+   "return", "try", "while", "with", "yield"]
+
+/-- `str.isidentifier(s) and not keyword.iskeyword(s)`, exact on ASCII (letters, digits, underscore, not starting with a
+    digit); a non-ASCII character is taken for a letter (the harness only uses non-ASCII letters in keys) -/
+def isIdent (s : String) : Bool :=
+  match s.toList with
+  | [] => false
+  | c :: cs => (c.isAlpha || c == '_' || decide (c.val ≥ 128)) &&
+               cs.all (fun d => d.isAlphanum || d == '_' || decide (d.val ≥ 128)) && !pyKeywords.contains s
+
+/-- a key a generated (class-syntax) TypedDict can have: a string that is an identifier -/
+def Val.tdKeyOk : Val → Bool | .str s => isIdent s | _ => false
+
+theorem Val.tdKeyOk_strKey (v : Val) (h : v.tdKeyOk = true) : v.strKey?.isSome = true := by
+  cases v <;> simp_all [Val.tdKeyOk, Val.strKey?]
+
+theorem all_tdKeyOk_strKey (kvs : List (Val × Val)) (h : kvs.all (fun kv => kv.1.tdKeyOk) = true) :
+    kvs.all (fun kv => kv.1.strKey?.isSome) = true := by
+  simp only [List.all_eq_true] at h ⊢
+  exact fun kv hkv => Val.tdKeyOk_strKey kv.1 (h kv hkv)
+
 /-- first-match lookup, as a Python dict lookup on an association list -/
 def lookupF (s : String) : List (String × Ty) → Option Ty
   | [] => none
